@@ -36,7 +36,7 @@ Proof.
   unfold remove_urr. destruct id as [i|]; [|apply shrinks_refl].
   destruct (alookup i (s_urrs (c_s c))); [|apply shrinks_refl].
   match goal with |- context [drv e ?cx DRemove KURR i] => destruct (drv e cx DRemove KURR i) as [c2 ok] eqn:E end.
-  cbn [fst]. apply drv_shrinks in E; [|discriminate]. intros r H. apply E in H. exact H.
+  cbn [fst]. apply drv_shrinks in E; [|discriminate]. intros r H. rewrite forget_urr_dp in H. apply E in H. exact H.
 Qed.
 
 Lemma diassociate_shrinks e u c : shrinks c (fst (diassociate e u c)).
@@ -123,7 +123,7 @@ Proof.
   intros [Hc _]. unfold remove_urr.
   destruct (alookup i (s_urrs (c_s c))) as [inf|] eqn:El.
   - match goal with |- context [drv e ?cx DRemove KURR i] => destruct (drv e cx DRemove KURR i) as [c2 ok] eqn:E end.
-    cbn [fst]. apply drv_spec in E. destruct E as [_ [Hd _]]. cbn [upd_s c_s c_dp set_urrs s_lid] in Hd.
+    cbn [fst]. rewrite forget_urr_dp. apply drv_spec in E. destruct E as [_ [Hd _]]. cbn [upd_s c_s c_dp set_urrs s_lid] in Hd.
     pose proof (dp_call_spec _ _ _ _ _ _ _ _ Hd) as [_ [_ [R1 [R2 _]]]].
     destruct ok.
     + apply R1; reflexivity.
